@@ -28,7 +28,8 @@ RULE = ("grammar-directed manifests (1-4 streams, 1-5 blocks of size 0-20 drawn 
         "(on, one before, one after, inside), zero-length and repeated file tokens, names with space, colon, "
         "backslash, backslash-digit sequences, control and non-ASCII bytes, filenames with '/'), every codec run on "
         "each manifest, every (srcpath, relocate) pair over the manifest's directories/files for Extract; direct "
-        "binary-search cases over non-decreasing offset arrays; escape round trips on random byte strings; a "
+        "binary-search cases over non-decreasing offset arrays; escape round trips on random byte strings; "
+        "grammar-valid manifests with a file/directory conflict; a "
         "malformed stream (arbitrary bytes over a manifest-like alphabet and single-token mutations of valid "
         "manifests incl. 2^31/2^63/2^64 boundary numbers). A case is non-trivial when its manifest is valid and "
         "has a multi-segment file, a zero-length block or an escaped name, or when it is malformed and rejected; "
@@ -736,6 +737,21 @@ def gen_valid(rng, avoid_conflict=True):
     return b"".join(l + b"\n" for l in lines)
 
 
+def gen_conflict(rng):
+    """a grammar-valid manifest in which one path is both a file and a directory"""
+    txt = gen_valid(rng)
+    ref = ref_parse(txt)
+    if not ref:
+        return txt
+    name, blocks, files = rng.choice(ref)
+    fname = rng.choice(files)[2]
+    p = name + b"/" + fname                       # an existing file path, now also used as a stream name
+    line = esc_name(rng, p) + b" " + blocks[0][0] + b" 0:0:" + esc_name(rng, rng.choice([b"x", b"y z"]))
+    lines = txt[:-1].split(b"\n")
+    lines.insert(rng.randrange(len(lines) + 1), line)
+    return b"".join(l + b"\n" for l in lines)
+
+
 BIGNUMS = [2**31 - 1, 2**31, 2**32, 2**63 - 1, 2**63, 2**64 - 2, 2**64 - 1, 2**64, 10**30]
 
 
@@ -829,7 +845,7 @@ def ext_pairs(rng, ref, tier):
     srcs.append(b"./nonexistent")
     rels = [b".", b"./new", b"./new/", b"./new/name", rng.choice([b"./n w", b"./n\\134x/", b"./a:b", b"new", b"./\xc3\xa9/"])]
     pairs = [(s, r) for s in srcs for r in rels]
-    cap = 24 if tier == "quick" else 60
+    cap = 24 if tier == "quick" else 40
     if len(pairs) > cap:
         pairs = rng.sample(pairs, cap)
     return pairs
@@ -855,17 +871,21 @@ def cases_for_malformed(txt, out):
 
 def generate(rng, tier):
     quick = tier == "quick"
-    nvalid = 220 if quick else 6000
-    nmut = 500 if quick else 15000
-    ngarb = 200 if quick else 6000
+    nvalid = 220 if quick else 2500
+    nmut = 500 if quick else 10000
+    ngarb = 200 if quick else 4000
     nfb = 400 if quick else 12000
     nesc = 150 if quick else 4000
+    nconf = 15 if quick else 300
     out = []
     valids = []
     for i in range(nvalid):
         txt = gen_valid(rng, avoid_conflict=rng.random() < 0.93)
         valids.append(txt)
         cases_for_valid(rng, txt, tier, out)
+    for i in range(nconf):
+        h = hx(gen_conflict(rng))
+        out += [f"m.seg {h}", f"a.fs {h}", f"a.pdh {h}", f"m.ext {h} 2e 2e"]
     out += ["m.seg -", "a.fs -", "a.pdh -", "m.ext - 2e 2e", "p.seg -"]
     for _ in range(nmut):
         cases_for_malformed(mutate(rng, rng.choice(valids)), out)
